@@ -140,9 +140,13 @@ impl Builtins {
                                 pos.clone(),
                             )
                         })?;
+                        // The file being imported is in progress until its VM
+                        // returns; anything it imports must see it on the stack.
+                        let mut in_progress = import_stack.clone();
+                        in_progress.push(path.clone());
                         let mut vm =
                             VM::with_pointer(self.strict, op_pointer, base_path)
-                                .with_import_stack(import_stack.clone());
+                                .with_import_stack(in_progress);
                         vm.run(env)?;
                         let result = Rc::new(vm.symbols_to_tuple(true));
                         env.borrow_mut()
